@@ -510,7 +510,11 @@ func TestAtomicPut(t *testing.T) {
 			}
 			r.Eval()
 			atomStages++
-			r.Class("atomic:" + strings.SplitN(stage, ":", 2)[0])
+			cls := "atomic:" + strings.SplitN(stage, ":", 2)[0]
+			if stage == "concurrent-reader" {
+				cls += " (exploration)"
+			}
+			r.Class(cls)
 			if v != nil {
 				cc := c
 				cc.Stage = stage
@@ -551,6 +555,19 @@ func replayAtomic(t *testing.T) {
 		if stage == "child:loop" {
 			t.Skip("SIGKILL exploration cases depend on the kill instant and cannot be replayed deterministically")
 		}
+		if strings.HasPrefix(stage, "limit-bucket:") {
+			limit := 0
+			fmt.Sscanf(stage, "limit-bucket:%d", &limit)
+			v, err := limitBucketScenario(c, limit)
+			if err != nil {
+				t.Fatalf("harness: %v", err)
+			}
+			r.Eval()
+			if v != nil {
+				r.Fail(t, v.key, v.msg, c)
+			}
+			continue
+		}
 		if strings.HasPrefix(stage, "child:") {
 			v, err := runChildStage(c, strings.TrimPrefix(stage, "child:"))
 			if err != nil {
@@ -571,6 +588,129 @@ func replayAtomic(t *testing.T) {
 			r.Fail(t, v.key, v.msg, c)
 		}
 	}
+}
+
+// ---------------------------------------------------------------------------------------------
+// LimitWriteBucket over an atomic put (open known finding
+// "limit-bucket-publishes-partial-atomic-put"): the limit wrapper rejects a Write without the
+// wrapped atomic writer ever seeing an error, so the wrapped Close renames a truncated temp file.
+
+const keyLimitBucket = "limit-bucket-publishes-partial-atomic-put"
+
+// limitBucketScenario: atomic put of the case's new content in its chunks through
+// storage.LimitWriteBucket(diskBucket, limit). If a write was rejected by the limit, the put
+// failed: a reader must still see the old content and no temp file may remain.
+func limitBucketScenario(c atomCase, limit int) (*atomViolation, error) {
+	stage := fmt.Sprintf("limit-bucket:%d", limit)
+	e, err := newAtomEnv(c)
+	if err != nil {
+		return nil, err
+	}
+	defer e.close()
+	ctx := context.Background()
+	b, err := e.bucket()
+	if err != nil {
+		return nil, err
+	}
+	w, err := storage.LimitWriteBucket(b, limit).Put(ctx, c.Path, storage.PutWithAtomic())
+	if err != nil {
+		return nil, fmt.Errorf("atomic Put through LimitWriteBucket failed: %w", err)
+	}
+	var werr error
+	off := 0
+	for _, n := range c.Chunks {
+		if _, werr = w.Write(e.new[off : off+n]); werr != nil {
+			break
+		}
+		off += n
+	}
+	cerr := w.Close()
+	got, exists, err := readObject(e.dir, c.Path)
+	if err != nil {
+		return nil, err
+	}
+	if werr == nil {
+		// the limit was not reached: an ordinary successful put
+		if cerr != nil {
+			return nil, fmt.Errorf("put within the limit failed: %w", cerr)
+		}
+		if !exists || !bytes.Equal(got, e.new) {
+			return &atomViolation{key: "atomic-put-partial-visible", msg: fmt.Sprintf("stage %s: successful put within the limit left %s", stage, describeBytes(got, exists)), stage: stage}, nil
+		}
+		return nil, nil
+	}
+	isOld := exists == c.HasOld && (!exists || bytes.Equal(got, e.old))
+	if !isOld {
+		truncatedPrefix := exists && len(got) < len(e.new) && bytes.HasPrefix(e.new, got)
+		key := "atomic-put-partial-visible"
+		if truncatedPrefix && cerr == nil {
+			key = keyLimitBucket
+		}
+		oldS := "absent"
+		if c.HasOld {
+			oldS = fmt.Sprintf("%d bytes", len(e.old))
+		}
+		return &atomViolation{key: key, stage: stage, msg: fmt.Sprintf(
+			"stage %s: atomic put of %d bytes at %q through storage.LimitWriteBucket(limit=%d): Write failed with %q after %d accepted bytes, Close returned %v, and a reader now sees %s (the first %d bytes of the new content) instead of the old content (%s)",
+			stage, len(e.new), c.Path, limit, firstLineOf(werr), off, cerr, describeBytes(got, exists), len(got), oldS)}, nil
+	}
+	tmps, err := tempFiles(e.dir)
+	if err != nil {
+		return nil, err
+	}
+	if len(tmps) > 0 {
+		return &atomViolation{key: "temp-file-left", msg: fmt.Sprintf("stage %s: temporary files remain after the limit-rejected put: %v", stage, tmps), stage: stage}, nil
+	}
+	return nil, nil
+}
+
+func firstLineOf(err error) string {
+	s := err.Error()
+	if i := strings.IndexByte(s, '\n'); i >= 0 {
+		s = s[:i]
+	}
+	return s
+}
+
+// TestLimitBucketAtomicPut: one fixed scenario every run (directed regression for the known
+// finding) plus a few generated sizes/limits.
+func TestLimitBucketAtomicPut(t *testing.T) {
+	r := evid.R()
+	func() {
+		defer r.Begin(t)()
+		// "OLD-CONTENT" replaced by "NEW"+"-COMPLETE-CONTENT" with a 5 byte limit
+		c := atomCase{Path: "f.txt", HasOld: true, OldSize: 11, OldSeed: 1, NewSize: 20, NewSeed: 2, Chunks: []int{3, 17}}
+		v, err := limitBucketScenario(c, 5)
+		if err != nil {
+			t.Fatalf("harness: %v", err)
+		}
+		r.Eval()
+		r.Class("atomic:limit-bucket (directed)")
+		if v != nil {
+			c.Stage = v.stage
+			r.Fail(t, v.key, v.msg, c)
+		}
+	}()
+	r.Check(t, r.Scale(40, 600), 5, func(t *rapid.T) {
+		c := genAtomCase(t)
+		c.Others = nil
+		if c.NewSize == 0 {
+			c.NewSize, c.Chunks = 1, []int{1}
+		}
+		limit := rapid.IntRange(0, c.NewSize-1).Draw(t, "limit")
+		v, err := limitBucketScenario(c, limit)
+		if err != nil {
+			t.Fatalf("harness: %v (case %s)", err, c.canon())
+		}
+		r.Eval()
+		r.Class("atomic:limit-bucket (generated)")
+		if v != nil {
+			c.Stage = v.stage
+			if r.Fail(t, v.key, v.msg, c) {
+				return
+			}
+		}
+	})
 }
 
 // ---------------------------------------------------------------------------------------------
